@@ -164,4 +164,40 @@ theorem TapeBelow.mono {t : List (Stmt Int)} {n m : Nat} (h : TapeBelow t n) (hn
 theorem initGradients_length (s : St) : s.initGradients.grad.length = s.ga.maxGrad := by
   rw [initGradients_grad, List.length_replicate]
 
+/-! ### range writes -/
+
+theorem writeFrom_length (g : List Int) (i : Nat) (vs : List Int) : (writeFrom g i vs).length = g.length := by
+  induction vs generalizing g i with
+  | nil => rfl
+  | cons v vs ih => simp [writeFrom, ih]
+
+theorem writeFrom_outside (g : List Int) (st : Nat) (vs : List Int) (i : Nat) (h : i < st ∨ st + vs.length ≤ i) :
+    (writeFrom g st vs).getD i 0 = g.getD i 0 := by
+  induction vs generalizing g st with
+  | nil => rfl
+  | cons v vs ih =>
+    simp only [writeFrom]
+    rw [ih (g.set st v) (st + 1) (by simp only [List.length_cons] at h; omega)]
+    have hne : st ≠ i := by simp only [List.length_cons] at h; omega
+    simp [List.getD_eq_getElem?_getD, List.getElem?_set_ne hne]
+
+theorem writeFrom_inside (g : List Int) (st : Nat) (vs : List Int) (j : Nat) (hj : j < vs.length)
+    (hl : st + vs.length ≤ g.length) : (writeFrom g st vs).getD (st + j) 0 = vs.getD j 0 := by
+  induction vs generalizing g st j with
+  | nil => simp at hj
+  | cons v vs ih =>
+    simp only [writeFrom]
+    simp only [List.length_cons] at hl hj
+    cases j with
+    | zero =>
+      have h1 := writeFrom_outside (g.set st v) (st + 1) vs st (Or.inl (Nat.lt_succ_self st))
+      have : st < g.length := by omega
+      simp only [Nat.add_zero]
+      rw [h1]
+      simp [List.getD_eq_getElem?_getD, List.getElem?_set_self this]
+    | succ j =>
+      have := ih (g.set st v) (st + 1) j (by omega) (by simp only [List.length_set]; omega)
+      rw [show st + (j + 1) = st + 1 + j by omega, this]
+      simp
+
 end Adept.StackProto
